@@ -33,6 +33,50 @@ def lemmas(run):
     return f
 
 
+def check_rank_transform(run):
+    """rank_transform (engine A): RDM i of the result holds rankdata(vector_i, method=<the requested method>,
+    nan_policy='omit') -- ranks among the non-missing entries with the requested tie method -- and the three descriptor
+    dictionaries are copies of the source's"""
+    import z3
+    from vf.pyvc.values import SV, Obj, SeqV, DictV, fresh_name
+    from vf.pyvc.api import FuncCheck
+    from contracts.common import new_engine, finish_engine
+    E = new_engine(run)
+    fails = []
+    for mcase in ('default', 'given'):
+        ck = FuncCheck(E, run, 'C17', 'rsatoolbox.rdm.transform.rank_transform', f'method={mcase}')
+
+        def mk(E, mcase=mcase):
+            kw = {} if mcase == 'default' else dict(method=E.sym_val('method', tag='scalar'))
+            return [E.sym_obj('rdms', 'RDMs')], kw, []
+
+        def post(ck, E, args, kw, p, mcase=mcase):
+            rdms = args[0]
+            res = p.value
+            ok = isinstance(res, Obj) and res.cls == 'RDMs'
+            ck.ensure('post/returns-RDMs', z3.BoolVal(ok))
+            if not ok:
+                return
+            d = res.fields.get('dissimilarities')
+            ok = isinstance(d, SeqV)
+            ck.ensure('post/one-rank-vector-per-rdm', z3.BoolVal(ok) if not ok else d.zlen() == E.getattr(rdms, 'n_rdm').z)
+            if ok:
+                i = z3.Int(fresh_name('r'))
+                E.pc.append(z3.And(i >= 0, i < d.zlen()))
+                p.pc = list(E.pc)
+                fv = E.find_method('RDMs', 'get_vectors')
+                vec = E.getitem(E.app(fv.name, [rdms]), SV(i, 'int'))
+                method = kw.get('method', 'average')
+                want = E.app('scipy.stats.rankdata', [vec, DictV(dict(method=method, nan_policy='omit'))])
+                ck.ensure_eq('post/ranks-among-non-missing-entries-with-the-requested-tie-method', E.seq_elem(d, i), want)
+            for name in ('descriptors', 'rdm_descriptors', 'pattern_descriptors'):
+                ck.ensure_eq(f'post/{name}-are-the-sources', res.fields.get(name), E.getattr(rdms, name))
+        ck.execute(mk, post=post, allow_raise=lambda *a: None)
+        fails += ck.failed
+    finish_engine(E, run)
+    return fails
+
+
 def tier_b(run, thorough):
     """the real element-wise transforms executed on symbolic entries with a fixed SIGN PATTERN (all sign patterns enumerated):
     sqrt_transform = sqrt(max(x,0)), positive_transform = max(x,0), for all real values of those signs"""
@@ -74,7 +118,7 @@ def tier_b(run, thorough):
 
 
 def run(run):
-    fails = lemmas(run) + tier_b(run, run.tier == 'thorough')
+    fails = lemmas(run) + check_rank_transform(run) + tier_b(run, run.tier == 'thorough')
     run.trust('Lean lemma cos_scale_invariant (vf/lemmas/PooledOptimal.lean): cosine is invariant under positive scaling')
     finish(run, fails, 'C17')
     run.explanation = ('lemma layer (z3 NRA): the transforms are order-/tie-preserving maps, hence rank measures are invariant given the C03 '
